@@ -3,6 +3,7 @@ use crate::*;
 use lazy_static::lazy_static;
 use statrs::distribution::{Continuous, ContinuousCDF};
 use statrs::distribution::{Normal, StudentsT};
+use statrs::function::beta::beta_reg;
 
 ///
 /// return the z-value of the normal distribution for a given confidence level.
@@ -39,14 +40,31 @@ pub fn t_value(confidence: Confidence, degrees_of_freedom: f64) -> f64 {
     // to converge for a few combinations (e.g., 49518 degrees of freedom and quantile 0.875
     // yield 0.022 instead of 1.150). Its cdf is accurate, so the value is refined with a few
     // Newton steps and the candidate with the smallest residual is retained.
-    let mut best = (t, (student_t.cdf(t) - quantile).abs());
+    //
+    // Around the median, statrs evaluates the cdf through the incomplete beta function at
+    // dof/(dof+t^2), which rounds to 1 and cannot resolve |t| below sqrt(dof * EPSILON); the
+    // complementary form at t^2/(dof+t^2) is used there instead.
+    let cdf = |t: f64| {
+        if degrees_of_freedom.is_finite() && t * t < degrees_of_freedom {
+            let x = t * t / (degrees_of_freedom + t * t);
+            let half = 0.5 * beta_reg(0.5, 0.5 * degrees_of_freedom, x);
+            if t < 0. {
+                0.5 - half
+            } else {
+                0.5 + half
+            }
+        } else {
+            student_t.cdf(t)
+        }
+    };
+    let mut best = (t, (cdf(t) - quantile).abs());
     for _ in 0..16 {
         let slope = student_t.pdf(t);
         if best.1 < 1e-12 || !(slope > 0.) {
             break;
         }
-        t -= (student_t.cdf(t) - quantile) / slope;
-        let residual = (student_t.cdf(t) - quantile).abs();
+        t -= (cdf(t) - quantile) / slope;
+        let residual = (cdf(t) - quantile).abs();
         if residual < best.1 {
             best = (t, residual);
         }
